@@ -16,7 +16,8 @@ from .c09_terms import (Unsup, NONE, TRUE, FALSE, ELL, FULL, ZEROS, EMPTY, const
 BUILTINS = {"range", "zip", "enumerate", "len", "int", "float", "abs", "min", "max", "isinstance", "print", "str", "bool", "list", "tuple", "sum",
             "sorted", "set", "dict", "iter", "next", "any", "all", "round", "divmod", "repr", "locals", "ValueError", "TypeError", "getattr",
             "hasattr", "map", "slice", "type", "id", "reversed", "globals"}
-STRUCT_CALLS = {"builtins.range", "builtins.zip", "builtins.enumerate", "itertools.repeat", "builtins.iter", "builtins.reversed"}
+STRUCT_CALLS = {"builtins.range", "builtins.zip", "builtins.enumerate", "itertools.repeat", "builtins.iter", "builtins.reversed", "builtins.map",
+                "itertools.count"}
 DRAINERS = {"builtins.list", "builtins.tuple", "collections.deque", "builtins.sum", "builtins.sorted", "builtins.set", "builtins.max", "builtins.min",
             "builtins.any", "builtins.all"}
 PURE_NS = ("numpy.", "scipy.", "math.", "pandas.", "types.", "warnings.", "builtins.", "itertools.", "pyyeti.", "collections.", "os.", "sys.")
@@ -74,6 +75,62 @@ def carries_fn(v):
     if is_tag(v, "phi"):
         return carries_fn(v[2]) or carries_fn(v[3])
     return False
+
+
+def _index_facts(c):
+    """what a test says about a value *used as an index or slice bound*: -> (facts when true, facts when false), each a list of (term, constant).
+    `if s:` false means s is 0 / False / None - as a lower slice bound all of them mean "from the start"; `s == k` true means index k."""
+    if is_tag(c, "not"):
+        a, b = _index_facts(c[1])
+        return b, a
+    if is_tag(c, "truth"):
+        return [], [(c[1], NONE)]
+    if is_tag(c, "call") and c[1] == ("ext", "builtins.bool") and len(c[2]) == 1 and not c[3]:
+        return [], [(c[2][0], NONE)]
+    if is_tag(c, "cmp") and c[1] in ("Eq", "NotEq") and is_const(c[3]) and c[3][1] == "int" and not is_const(c[2]):
+        f = [(c[2], NONE if c[3][2] == 0 else c[3])]
+        return (f, []) if c[1] == "Eq" else ([], f)
+    if is_tag(c, "cmp") and c[1] in ("Eq", "NotEq") and is_const(c[2]) and c[2][1] == "int" and not is_const(c[3]):
+        f = [(c[3], NONE if c[2][2] == 0 else c[2])]
+        return (f, []) if c[1] == "Eq" else ([], f)
+    if not is_tag(c, "cmp", "bool", "c"):
+        return [], [(c, NONE)]          # a bare value used as a test
+    return [], []
+
+
+def _with_lower_bound(t, s, k):
+    """t with s replaced by k where s is the lower bound of a slice; `X[start:]` over the whole of X is X"""
+    def f(x):
+        if is_tag(x, "slice") and x[1] == s:
+            x = ("slice", k, x[2], x[3])
+        if is_tag(x, "slice") and x[1] == const(0):
+            x = ("slice", NONE, x[2], x[3])
+        if is_tag(x, "idx"):
+            items = strip_full(x[2])
+            return x[1] if not items else ("idx", x[1], items)
+        return x
+    return tmap(f, t)
+
+
+def strip_full(items):
+    items = list(items)
+    while items and items[-1] == FULL:
+        items.pop()
+    return tuple(items)
+
+
+def collapse_phi(x):
+    """(a if c else b) where a, read under what `not c` says about a slice bound, is b (or the other way round) is a (is b) unconditionally:
+    `r[S:] if S else r` is `r[S:]`"""
+    _, c, a, b = x
+    when_true, when_false = _index_facts(c)
+    for s, k in when_false:
+        if _with_lower_bound(a, s, k) == _with_lower_bound(b, s, k):
+            return a
+    for s, k in when_true:
+        if _with_lower_bound(b, s, k) == _with_lower_bound(a, s, k):
+            return b
+    return x
 
 
 class _Return(Exception):
@@ -231,6 +288,7 @@ class Sim:
         self.cur_node = None
         self.const_cache = {}
         self.closures = {}
+        self.seqlen = {}           # content term of an opaque sequence -> number of targets it was unpacked into
 
     # ------------------------------------------------------------------------------------------------ heap
     def new_obj(self, kind, init, shape=None):
@@ -293,9 +351,14 @@ class Sim:
                 ev = evs[k - 1]
                 if ev.kind == "escape":
                     return mkidx(("escaped", upto(k - 1, ()), ev.note), sel)
-                if ev.shape != shape:
+                ev_shape, ev_value = ev.shape, ev.value
+                if ev_shape is None and shape is not None and ev.sel == () and is_tag(ev_value, "call") and ev_value[1] == ("ext", "numpy.ravel") and \
+                        len(ev_value[2]) == 1 and not ev_value[3] and shape == ("attr", ev_value[2][0], "shape"):
+                    # X.ravel() written through the flat view of the buffer is X written through the view shaped X.shape (both C order)
+                    ev_shape, ev_value = shape, ev_value[2][0]
+                if ev_shape != shape:
                     if ev.sel == () and sel == ():
-                        return ("reshaped", ev.value, shape if shape is not None else NONE)
+                        return ("reshaped", ev_value, shape if shape is not None else NONE)
                     kind, rest = "unknown", None
                 else:
                     kind, rest = relation(ev.sel, sel)
@@ -303,11 +366,11 @@ class Sim:
                     k -= 1
                     continue
                 if kind == "equal":
-                    return ev.value
+                    return ev_value
                 if kind == "acovers":
-                    return mkidx(ev.value, rest)
+                    return mkidx(ev_value, rest)
                 if kind == "bcovers":
-                    return ("upd", upto(k - 1, sel), rest, ev.value, closed(ev))
+                    return ("upd", upto(k - 1, sel), rest, ev_value, closed(ev))
                 # overlap undecided (two different symbolic indices on one axis, or two views of different shape): the content is described as
                 # it is - "whatever is at sel after a store at ev.sel" -, which two equal programs describe equally
                 self.overlaps.append((self.ctx, self.cur_node, f"[{', '.join(show(x) for x in ev.sel)}] / [{', '.join(show(x) for x in sel)}]"))
@@ -480,7 +543,7 @@ class Sim:
         return self.decide_term(t)
 
     def resolve(self, t):
-        """phi terms whose condition has been decided on this path"""
+        """phi terms whose condition has been decided on this path, or whose arms coincide under what the condition itself says"""
         def f(x):
             if is_tag(x, "phi"):
                 r = self.try_decided(x[1])
@@ -488,6 +551,9 @@ class Sim:
                     return x[2]
                 if r is False:
                     return x[3]
+                return collapse_phi(x)
+            if is_tag(x, "idx") and any(is_tag(i, "slice") and i[1] == const(0) for i in x[2]):
+                return _with_lower_bound(x, None, None)          # X[0:] holds what X holds
             return x
         return tmap(f, t)
 
@@ -607,6 +673,8 @@ class Sim:
             return ("fn", rel, name)
         if name in mi.classes:
             return self.record_class(rel, mi.classes[name])
+        if name in mi.gdicts:
+            return ("gdict", rel, name)
         if name in mi.consts and mi.nassign.get(name) == 1:
             return self.module_const(rel, name)
         if name in mi.imports:
@@ -624,7 +692,10 @@ class Sim:
         else:
             rel, name = key
             mi = self.world.mods[rel]
-            v = self.ev_const(mi.consts[name], rel) if name in mi.consts else ("s", name)
+            if "[" in name:
+                v = NONE          # entry of a module-level dict that nobody has set in this process (reading it raises KeyError)
+            else:
+                v = self.ev_const(mi.consts[name], rel) if name in mi.consts else ("s", name)
             prov = "module"
         if record:
             self.preads.append((key, prov, self.ctx, self.cur_node, v, tuple(f.fid for f in self.frames)))
@@ -730,12 +801,17 @@ class Sim:
                 return mkidx(("tuple",) + tuple(obj.entries[const(f)] for f in obj.meta["order"]), items)
             if len(items) == 1 and items[0] in obj.entries and not obj.meta.get("ns"):
                 return obj.entries[items[0]]
+            if len(items) == 1 and set(obj.entries) == {TRUE, FALSE} and not obj.meta.get("ns") and self.as_test(items[0]) is not None:
+                # {True: x, False: y}[test]
+                return self.subscript(("tuple", obj.entries[FALSE], obj.entries[TRUE]), items, node)
             raise Unsup(f"dict entry {show(items[0]) if items else ''} not set on this path")
         if base == NONE:
             self.none_uses.append((self.ctx, node, "subscript of None"))
             return ("s", "<subscript of None>")
         if is_tag(base, "globals"):
             return self.lookup_module(self.global_key(base, items)[1], base[1])
+        if is_tag(base, "gdict"):
+            return self.read_global(self.gdict_key(base, items))
         if is_tag(base, "tuple", "list") and len(base) == 3 and len(items) == 1 and self.as_test(items[0]) is not None:
             # (x, y)[test]: y when the test holds, else x
             c = self.as_test(items[0])
@@ -759,6 +835,13 @@ class Sim:
         if is_tag(t, "call") and t[1] == ("ext", "builtins.bool") and len(t[2]) == 1 and not t[3]:
             return t[2][0]
         return None
+
+    @staticmethod
+    def gdict_key(base, items):
+        """an entry of a module-level state dict is a process global of its own, named  dict['key']"""
+        if len(items) != 1 or not is_const(items[0]) or not isinstance(items[0][2], (str, int)):
+            raise Unsup("entry of a module-level state dict addressed by a computed key")
+        return (base[1], f"{base[2]}[{items[0][2]!r}]")
 
     def global_key(self, base, items):
         if len(items) != 1 or not (is_const(items[0]) and isinstance(items[0][2], str)):
@@ -785,6 +868,8 @@ class Sim:
             la, rb = self.ev(node.left, fr), self.ev(node.right, fr)
             a = self.snap(la)
             b = self.snap(rb)
+            if isinstance(node.op, ast.Add) and ((is_tag(la, "tuple") and is_tag(rb, "tuple")) or (is_tag(la, "list") and is_tag(rb, "list"))):
+                return la + rb[1:]          # a new tuple / list holding the elements of both
             t = ("bin", type(node.op).__name__, a, b)
             if any(is_tag(x, "ref") and self.heap[x[1]].kind in ("array", "raw", "derived") for x in (la, rb)):
                 return self.fresh(t, kind="derived")        # arithmetic on an array yields a new array (it may be stored into later)
@@ -809,7 +894,17 @@ class Sim:
                 return self.snap(v)
             left = operand(node.left)
             for op, c in zip(node.ops, node.comparators):
-                r = operand(c)
+                if isinstance(op, (ast.In, ast.NotIn)) and is_const(left):
+                    raw = self.ev(c, fr)
+                    if is_tag(raw, "dref") and not self.heap[raw[1]].meta.get("ns") and all(is_const(k) for k in self.heap[raw[1]].entries):
+                        # membership of a constant in a dict whose keys are all known constants
+                        has = left in self.heap[raw[1]].entries
+                        parts.append(TRUE if has == isinstance(op, ast.In) else FALSE)
+                        left = self.snap(raw)
+                        continue
+                    r = self.snap(raw)
+                else:
+                    r = operand(c)
                 parts.append(("cmp", type(op).__name__, left, r))
                 left = r
             return parts[0] if len(parts) == 1 else ("bool", "And") + tuple(parts)
@@ -858,27 +953,49 @@ class Sim:
             return ("fstr",) + tuple(parts)
         if isinstance(node, ast.Lambda):
             return self.closure(node, fr)
-        if isinstance(node, (ast.GeneratorExp, ast.ListComp, ast.DictComp)):
-            if len(node.generators) != 1 or node.generators[0].ifs or node.generators[0].is_async:
-                raise Unsup("comprehension with several generators or a filter")
+        if isinstance(node, ast.NamedExpr):
+            if getattr(fr, "is_comp", False):
+                raise Unsup("assignment expression inside a comprehension")
+            v = self.ev(node.value, fr)
+            self.bind(node.target.id, v, fr)
+            return v
+        if isinstance(node, (ast.GeneratorExp, ast.ListComp, ast.DictComp, ast.SetComp)):
+            if any(g.is_async for g in node.generators):
+                raise Unsup("asynchronous comprehension")
             gen = node.generators[0]
             itv = self.ev(gen.iter, fr)
-            els = self.finite_elems(itv)
-            if els is not None:
-                # over a literal sequence: element by element
+            els = self.finite_elems(itv, ranges=True)
+            if els is not None and not isinstance(node, ast.SetComp):
+                # over literal sequences: element by element (nested generators in order, a filter is a test decided per element)
                 out = []
-                for e in els:
-                    sub = self.comp_frame(fr, gen)
-                    self.assign_target(gen.target, e, sub)
-                    out.append((self.snap(self.ev(node.key, sub)), self.ev(node.value, sub)) if isinstance(node, ast.DictComp) else self.ev(node.elt, sub))
+
+                def expand(k, sub, els):
+                    g = node.generators[k]
+                    for e in els:
+                        sub2 = self.comp_frame(sub, g)
+                        self.assign_target(g.target, e, sub2)
+                        if not all(self.decide(c, sub2) for c in g.ifs):
+                            continue
+                        if k + 1 < len(node.generators):
+                            inner = self.finite_elems(self.ev(node.generators[k + 1].iter, sub2), ranges=True)
+                            if inner is None:
+                                raise Unsup("comprehension with several generators over a sequence of unknown length")
+                            expand(k + 1, sub2, inner)
+                        elif isinstance(node, ast.DictComp):
+                            out.append((self.snap(self.ev(node.key, sub2)), self.ev(node.value, sub2)))
+                        else:
+                            out.append(self.ev(node.elt, sub2))
+                expand(0, fr, els)
                 if isinstance(node, ast.DictComp):
                     o = self.new_obj("dict", None)
                     for k, v in out:
                         o.entries[k] = v
                     return ("dref", o.oid)
                 return ("list",) + tuple(out)
-            if isinstance(node, ast.DictComp):
-                raise Unsup("dict comprehension over a sequence of unknown length")
+            if len(node.generators) != 1 or gen.ifs:
+                raise Unsup("comprehension with several generators or a filter over a sequence of unknown length")
+            if isinstance(node, (ast.DictComp, ast.SetComp)):
+                raise Unsup("dict / set comprehension over a sequence of unknown length")
             k = len(self.iterds) + 1
             self.iterds[k] = (node, fr, itv)
             return ("iterd", k)
@@ -895,9 +1012,11 @@ class Sim:
         for a in node.args:
             if isinstance(a, ast.Starred):
                 v = self.ev(a.value, fr)
-                if not is_tag(v, "tuple", "list"):
-                    raise Unsup("*args of unknown length")
-                args.extend(v[1:])
+                if is_tag(v, "tuple", "list"):
+                    args.extend(v[1:])
+                else:
+                    # a sequence whose length is not known: it stays one starred argument (only opaque callables accept it, see call_value)
+                    args.append(("star", self.snap(v)))
             else:
                 args.append(self.ev(a, fr))
         kws = {}
@@ -925,13 +1044,38 @@ class Sim:
         return self.call_value(f, args, kws, node)
 
     def _callterm(self, f, args, kws):
-        return ("call", f, tuple(self.snap(a) for a in args), tuple(("kw", k, self.snap(v)) for k, v in sorted(kws.items())))
+        return ("call", f, self.star_runs(tuple(self.snap(a) for a in args)), tuple(("kw", k, self.snap(v)) for k, v in sorted(kws.items())))
+
+    def star_runs(self, args):
+        """X[0], X[1], ..., X[n-1] in a row, for a sequence X that was unpacked into exactly n targets (so that it has n elements whenever the
+        unpacking does not raise), is the starred argument *X: one spelling for f(*X, y) and `a, b = X; f(a, b, y)`"""
+        out, i = [], 0
+        while i < len(args):
+            a = args[i]
+            if is_tag(a, "idx") and a[2] == (const(0),):
+                n = self.seqlen.get(a[1])
+                if n and all(i + k < len(args) and args[i + k] == ("idx", a[1], (const(k),)) for k in range(n)):
+                    out.append(("star", a[1]))
+                    i += n
+                    continue
+            out.append(a)
+            i += 1
+        return tuple(out)
 
     def call_value(self, f, args, kws, node):
         if not (is_tag(f, "ext") and (f[1] in DRAINERS or f[1] in STRUCT_CALLS)):
             for a in list(args) + list(kws.values()):
                 if isinstance(a, tuple) and any(is_tag(x, "relem", "results") for x in subterms(a)):
                     self.relem_uses.append((self.ctx, node))
+        if any(is_tag(a, "star") for a in args):
+            if not (is_tag(f, "ext") and f[1].startswith(PURE_NS) and not f[1].startswith("builtins.")) and \
+                    is_tag(f, "fn", "ext", "poolattr", "closure", "reccls", "opaquecls", "partial", "phi"):
+                raise Unsup("*args of unknown length")
+            if is_tag(f, "ext"):
+                # a pure library routine: the call is a term, however its arguments are spelled (no signature is applied across a starred argument)
+                if "out" in kws and kws["out"] != NONE:
+                    raise Unsup("*args of unknown length together with out=")
+                return self.fresh(self._callterm(("ext", ALIASES.get(f[1], f[1])), args, kws))
         if is_tag(f, "fn"):
             return self.call_fn(f, args, kws, node)
         if is_tag(f, "ext"):
@@ -952,6 +1096,9 @@ class Sim:
         if is_tag(f, "phi") and carries_fn(f):
             raise Unsup("call of a function chosen by an undecided test")
         # a callable value that comes from outside (user-supplied peak / rolloff, coefficient function picked from a table): assumed pure
+        for a in list(args) + list(kws.values()):
+            if isinstance(a, tuple) and any(is_tag(x, "pool", "poolattr") for x in subterms(a)):
+                raise Unsup("a pool is handed to a callable the analysis does not follow")
         return self.fresh(self._callterm(self.snap(f), args, kws))
 
     def closure(self, node, fr):
@@ -972,6 +1119,8 @@ class Sim:
         for a in list(args) + list(kws.values()):
             if carries_fn(a):
                 return True
+            if isinstance(a, tuple) and any(is_tag(x, "ref") and self.heap[x[1]].kind == "raw" for x in subterms(a)):
+                return True          # a helper that is handed a shared buffer: what it does with it (view, copy, store) is followed
         return False
 
     def call_fn(self, f, args, kws, node):
@@ -1121,6 +1270,13 @@ class Sim:
         if name == "numpy.reshape" and len(args) == 2 and not kws and is_tag(args[0], "ref") and self.heap[args[0][1]].kind == "raw" \
                 and args[0][2] is None and args[0][3] == ():
             return self.call_method(args[0], "reshape", [args[1]], {}, node)
+        if name == "contextlib.closing" and len(args) == 1 and not kws and is_tag(args[0], "pool"):
+            self.pools[args[0][1]].closing = True        # `with closing(pool)`: leaving the block calls pool.close(), not terminate()
+            return args[0]
+        if name not in DRAINERS and name not in STRUCT_CALLS and name != "builtins.print":
+            for a in list(args) + list(kws.values()):
+                if isinstance(a, tuple) and any(is_tag(x, "pool", "poolattr") for x in subterms(a)):
+                    raise Unsup(f"a pool is handed to {name}, which the analysis does not follow")
         if name == "multiprocessing.get_context":
             return ("mod", "multiprocessing")            # the context object offers the same Pool / RawArray
         if name in ("multiprocessing.Array", "multiprocessing.sharedctypes.Array") and len(args) == 2 and not (set(kws) - {"lock"}):
@@ -1161,8 +1317,10 @@ class Sim:
             dt = kws.get("dtype", args[1] if len(args) > 1 else None)
             self.views.append((r[1], None if dt is None else self.snap(dt), node))
             extra = {k: v for k, v in kws.items() if k != "dtype"}
-            if extra or len(args) > 2:
-                raise Unsup("np.frombuffer with count/offset")
+            extra.update(zip(("count", "offset"), args[2:4]))
+            if len(args) > 4 or set(extra) - {"count", "offset"} or self.snap(extra.get("count", const(-1))) != const(-1) or \
+                    self.snap(extra.get("offset", const(0))) != const(0):
+                raise Unsup("np.frombuffer with count/offset")         # (count=-1, offset=0 are the defaults: the whole buffer)
             return ("ref", r[1], None, ())
         if name in ("numpy.zeros", "numpy.empty") and len(args) == 1 and not kws:
             sh = self.snap(args[0])
@@ -1171,6 +1329,11 @@ class Sim:
             else:
                 sh = ("tuple",) + tuple(sh[1:])
             o = self.new_obj("array", ZEROS if name.endswith("zeros") else EMPTY, sh)
+            return ("ref", o.oid, None, ())
+        if name in ("numpy.zeros_like", "numpy.empty_like") and len(args) == 1 and not kws and is_tag(args[0], "ref") and \
+                self.heap[args[0][1]].kind in ("array", "raw") and self.ref_shape(args[0]) is not None:
+            # same shape (and element type: the arrays of this analysis hold float64) as the argument
+            o = self.new_obj("array", ZEROS if name.endswith("zeros_like") else EMPTY, self.ref_shape(args[0]))
             return ("ref", o.oid, None, ())
         if name in UFUNC and len(args) >= 2:
             out = kws.get("out", args[2] if len(args) > 2 else None)
@@ -1212,6 +1375,14 @@ class Sim:
             for a in args:
                 if is_tag(a, "results"):
                     self.drain(a[1])
+                elif is_tag(a, "iterd") or (is_tag(a, "call") and is_tag(a[1], "ext") and a[1][1] in STRUCT_CALLS):
+                    # a generator / zip / enumerate over the result iterator: consuming it consumes the results
+                    try:
+                        lid = self.iter_desc(a)[2]
+                    except Unsup:
+                        lid = None
+                    if lid is not None:
+                        self.drain(lid)
             return self._callterm(("ext", name), args, kws) if name.startswith("builtins.") else self.fresh(self._callterm(("ext", name), args, kws))
         if name == "builtins.locals":
             return ("s", "<locals()>")
@@ -1279,7 +1450,32 @@ class Sim:
                 return obj.entries[self.snap(args[0])]
             if name in ("items", "keys", "values") and not args and not kws:
                 return ("dictview", recv[1], name)
+            if name == "update" and len(args) <= 1 and "**" not in kws:
+                # d.update(other, key=value): entry by entry, like d[key] = value
+                if args:
+                    if not is_tag(args[0], "dref") or self.heap[args[0][1]].meta.get("ns"):
+                        raise Unsup("dict.update() with something else than a dict the analysis tracks")
+                    obj.entries.update(self.heap[args[0][1]].entries)
+                for k, v in kws.items():
+                    obj.entries[const(k)] = v
+                return NONE
+            if name == "setdefault" and len(args) == 2 and not kws and is_const(self.snap(args[0], record=False)):
+                return obj.entries.setdefault(self.snap(args[0], record=False), args[1])
+            if name in ("pop", "popitem", "clear", "update", "setdefault", "__setitem__", "__delitem__"):
+                raise Unsup(f"dict mutated through .{name}()")
             return self.fresh(self._callterm(("attr", self.snap(recv), name), args, kws))
+        if is_tag(recv, "gdict"):
+            if name == "update" and len(args) <= 1 and "**" not in kws:
+                new = []
+                if args:
+                    if not is_tag(args[0], "dref") or self.heap[args[0][1]].meta.get("ns"):
+                        raise Unsup("update of a module-level state dict with something else than a dict literal")
+                    new += list(self.heap[args[0][1]].entries.items())
+                new += [(const(k), v) for k, v in kws.items()]
+                for k, v in new:
+                    self.write_global(self.gdict_key(recv, (k,)), v)
+                return NONE
+            raise Unsup(f"module-level state dict used through .{name}()")
         if is_tag(recv, "globals"):
             if name == "get" and len(args) in (1, 2) and not kws:
                 return self.lookup_module(self.global_key(recv, (self.snap(args[0]),))[1], recv[1])
@@ -1324,6 +1520,11 @@ class Sim:
             if nm == "builtins.range" and len(a) == 2:
                 lo, hi = self.snap(a[0]), self.snap(a[1])
                 return (lambda lv: ("bin", "Add", lo, lv)), ("bin", "Sub", hi, lo), None
+            if nm == "itertools.count" and len(a) <= 1 and not v[3]:
+                if not a or self.snap(a[0]) == const(0):
+                    return (lambda lv: lv), None, None
+                lo = self.snap(a[0])
+                return (lambda lv: ("bin", "Add", lo, lv)), None, None
             if nm == "itertools.repeat" and len(a) in (1, 2):
                 x = a[0]
                 return (lambda lv: x), (self.snap(a[1]) if len(a) == 2 else None), None
@@ -1338,6 +1539,13 @@ class Sim:
                 return (lambda lv: ("tuple", lv, e(lv))), c, lid
             if nm in ("builtins.iter", "builtins.list", "builtins.tuple") and len(a) == 1:
                 return self.iter_desc(a[0])
+            if nm == "builtins.map" and len(a) >= 2 and not v[3]:
+                ds = [self.iter_desc(x) for x in a[1:]]
+                cs = [c for _, c, _ in ds if c is not None]
+                cnt = None if not cs else (cs[0] if all(c == cs[0] for c in cs) else ("min",) + tuple(cs))
+                lid = next((l for _, _, l in ds if l is not None), None)
+                f, node = a[0], self.cur_node
+                return (lambda lv: self.call_value(f, [e(lv) for e, _, _ in ds], {}, node)), cnt, lid
         if is_tag(v, "iterd"):
             node, fr, itv = self.iterds[v[1]]
             gen = node.generators[0]
@@ -1348,6 +1556,11 @@ class Sim:
                 self.assign_target(gen.target, e(lv), sub)
                 return self.ev(node.elt, sub)
             return elem, c, lid
+        if is_tag(v, "ref") and self.heap[v[1]].kind == "fresh" and v[3] == () and not self.heap[v[1]].events and \
+                is_tag(self.heap[v[1]].init, "call") and self.heap[v[1]].init[1] == ("ext", "numpy.arange") and not self.heap[v[1]].init[3] and \
+                len(self.heap[v[1]].init[2]) in (1, 2) and all(self.is_index_count(x) for x in self.heap[v[1]].init[2]):
+            # numpy.arange(n): the integers 0 .. n-1 (as numpy integers: they index like Python integers)
+            return self.iter_desc(("call", ("ext", "builtins.range"), self.heap[v[1]].init[2], ()))
         if is_tag(v, "ref"):
             sh = self.ref_shape(v)
             cnt = sh[1] if is_tag(sh, "tuple") and len(sh) > 1 else ("call", ("ext", "builtins.len"), (self.snap(v, record=False),), ())
@@ -1357,15 +1570,37 @@ class Sim:
         sv = self.snap(v)
         return (lambda lv: mkidx(sv, (lv,))), ("call", ("ext", "builtins.len"), (sv,), ()), None
 
+    @staticmethod
+    def is_index_count(t):
+        """an integer by construction: a constant, len(...), .size, or integer arithmetic on such"""
+        if is_const(t):
+            return t[1] == "int"
+        if is_tag(t, "call") and t[1] == ("ext", "builtins.len"):
+            return True
+        if is_tag(t, "attr") and t[2] in ("size", "ndim"):
+            return True
+        if is_tag(t, "idx") and is_tag(t[1], "attr") and t[1][2] == "shape":
+            return True
+        if is_tag(t, "bin") and t[1] in ("Add", "Sub", "Mult", "FloorDiv"):
+            return Sim.is_index_count(t[2]) and Sim.is_index_count(t[3])
+        return False
+
     def comp_frame(self, fr, gen):
         sub = Frame(fr.fn, fr.rel, fr.depth)
         sub.locals = dict(fr.locals)
         sub.globals_decl = fr.globals_decl
         sub.local_names = set(fr.local_names) | assigned_names(gen.target)
+        sub.outer = getattr(fr, "outer", None)
+        sub.is_comp = True
         return sub
 
-    def finite_elems(self, v):
-        """the elements of a literal sequence (or of zip / enumerate / reversed of literal sequences); None when the length is not known"""
+    def finite_elems(self, v, ranges=False):
+        """the elements of a literal sequence (or of zip / enumerate / reversed of literal sequences); None when the length is not known.
+        ranges=True (comprehensions, unpacking): range(constant) counts as a literal sequence too"""
+        if ranges and is_tag(v, "call") and v[1] == ("ext", "builtins.range") and not v[3] and 1 <= len(v[2]) <= 3 and \
+                all(is_const(self.snap(x, record=False)) and self.snap(x, record=False)[1] == "int" for x in v[2]):
+            r = range(*[self.snap(x, record=False)[2] for x in v[2]])
+            return [const(i) for i in r] if len(r) <= UNROLL_MAX else None
         if is_tag(v, "tuple", "list"):
             return list(v[1:]) if len(v) - 1 <= UNROLL_MAX else None
         if is_tag(v, "dictc"):
@@ -1398,6 +1633,12 @@ class Sim:
                 return None if p is None else p[::-1]
             if nm in ("builtins.iter", "builtins.list", "builtins.tuple") and len(a) == 1:
                 return self.finite_elems(a[0])
+            if nm == "builtins.map" and len(a) >= 2:
+                parts = [self.finite_elems(x) for x in a[1:]]
+                if any(p is None for p in parts):
+                    return None
+                # the function applied element by element, where the sequence is consumed
+                return [self.call_value(a[0], list(t), {}, self.cur_node) for t in zip(*parts)]
         return None
 
     def launch(self, pool, func, iterable, node, sync, ordered, star=False):
@@ -1475,9 +1716,27 @@ class Sim:
         if isinstance(t, ast.Name):
             self.bind(t.id, v, fr)
         elif isinstance(t, (ast.Tuple, ast.List)):
-            if any(isinstance(e, ast.Starred) for e in t.elts):
-                raise Unsup("starred assignment target")
+            stars = [i for i, e in enumerate(t.elts) if isinstance(e, ast.Starred)]
+            if stars:
+                # a, *rest, z = (literal sequence): rest is the list of what the other targets leave
+                if is_tag(v, "dref") and self.heap[v[1]].meta.get("order"):
+                    v = ("tuple",) + tuple(self.heap[v[1]].entries[const(f)] for f in self.heap[v[1]].meta["order"])
+                if len(stars) != 1 or not is_tag(v, "tuple", "list"):
+                    raise Unsup("starred assignment target on a sequence of unknown length")
+                i, after = stars[0], len(t.elts) - stars[0] - 1
+                vals = list(v[1:])
+                if len(vals) < len(t.elts) - 1:
+                    raise Unsup("unpacking length mismatch")
+                mid = ("list",) + tuple(vals[i:len(vals) - after])
+                parts = vals[:i] + [mid] + vals[len(vals) - after:]
+                for e, x in zip(t.elts, parts):
+                    self.assign_target(e.value if isinstance(e, ast.Starred) else e, x, fr)
+                return
             n = len(t.elts)
+            if is_tag(v, "call") and is_tag(v[1], "ext") and v[1][1] in STRUCT_CALLS:
+                els = self.finite_elems(v)
+                if els is not None:
+                    v = ("tuple",) + tuple(els)
             if is_tag(v, "tuple", "list"):
                 if len(v) - 1 != n:
                     raise Unsup("unpacking length mismatch")
@@ -1489,9 +1748,12 @@ class Sim:
                 parts = [o.entries[const(f)] for f in o.meta["order"]]
             elif is_tag(v, "ref"):
                 parts = [self.subref(v, (const(i),)) for i in range(n)]
+                if self.heap[v[1]].kind == "fresh" and v[3] == () and not self.heap[v[1]].events:
+                    self.seqlen.setdefault(self.heap[v[1]].init, n)
             else:
                 sv = self.snap(v)
                 parts = [mkidx(sv, (const(i),)) for i in range(n)]
+                self.seqlen.setdefault(sv, n)
             for e, x in zip(t.elts, parts):
                 self.assign_target(e, x, fr)
         elif isinstance(t, ast.Subscript):
@@ -1503,6 +1765,8 @@ class Sim:
                 dst = self.subref(base, items)
                 if is_tag(v, "iterd") and self.store_comp(dst, v):
                     return
+                if is_tag(v, "tuple", "list") and self.store_elems(dst, v):
+                    return
                 self.store(dst, self.snap(v))
             elif is_tag(base, "dref"):
                 if len(items) != 1:
@@ -1510,6 +1774,8 @@ class Sim:
                 self.heap[base[1]].entries[items[0]] = v
             elif is_tag(base, "globals"):
                 self.write_global(self.global_key(base, items), v)
+            elif is_tag(base, "gdict"):
+                self.write_global(self.gdict_key(base, items), v)
             elif base == NONE:
                 self.none_uses.append((self.ctx, t, "store into None"))
             elif any(is_tag(x, "unboundlocal", "oob") for x in subterms(base)):
@@ -1551,6 +1817,35 @@ class Sim:
             self.store(self.subref(dst, (lv,)), val)
         finally:
             self.frames.pop()
+        return True
+
+    def store_elems(self, dst, v):
+        """A[lo:hi, j] = (e_0, ..., e_n-1)  where the slice is the only axis of the region that is not a single index and selects exactly n
+        positions (constant bounds on an axis of constant length) is the sequence of stores A[lo + k, j] = e_k"""
+        _, oid, shape, sel = dst
+        sh = shape if shape is not None else self.heap[oid].shape
+        if not is_tag(sh, "tuple") or len(sel) != len(sh) - 1:
+            return False
+        reg = [i for i, it in enumerate(sel) if is_slice(it) or is_tag(it, "slice2", "subslice") or it == ELL]
+        if len(reg) != 1 or not is_slice(sel[reg[0]]):
+            return False
+        i = reg[0]
+        dim, (lo, hi, st) = sh[1 + i], sel[i][1:]
+        if not (is_const(dim) and dim[1] == "int") or st not in (NONE, const(1)):
+            return False
+        n = dim[2]
+
+        def bound(b, dflt):
+            if b == NONE:
+                return dflt
+            if not (is_const(b) and b[1] == "int"):
+                return None
+            return max(0, min(n, b[2] + n if b[2] < 0 else b[2]))
+        lo, hi = bound(lo, 0), bound(hi, n)
+        if lo is None or hi is None or hi - lo != len(v) - 1 or len(v) - 1 < 1:
+            return False
+        for k, e in enumerate(v[1:]):
+            self.store(("ref", oid, shape, sel[:i] + (const(lo + k),) + sel[i + 1:]), self.snap(e))
         return True
 
     def _undefined_root(self, node, fr):
@@ -1792,7 +2087,10 @@ class Sim:
             for v in vals:
                 if is_tag(v, "pool"):
                     self.cur_node = st
-                    self.pool_end(self.pools[v[1]], st)
+                    if getattr(self.pools[v[1]], "closing", False) and not getattr(self.pools[v[1]], "executor", False):
+                        self.pools[v[1]].closing = False          # close(): no more tasks are accepted, the submitted ones go on
+                    else:
+                        self.pool_end(self.pools[v[1]], st)
         elif isinstance(st, ast.Try):
             try:
                 self.exec_block(st.body, fr)
@@ -1801,13 +2099,19 @@ class Sim:
                 # the finally arm runs on the normal path as well (exceptions themselves are not modelled)
                 pass
             self.exec_block(st.finalbody, fr)
+        elif isinstance(st, ast.Match):
+            self.exec_match(st, fr)
         elif isinstance(st, ast.Return):
             raise _Return(self.ev(st.value, fr) if st.value is not None else NONE)
         elif isinstance(st, ast.Raise):
             raise PathDead()
         elif isinstance(st, ast.Continue):
             raise _Continue()
-        elif isinstance(st, (ast.Pass, ast.Global, ast.Nonlocal, ast.Assert)):
+        elif isinstance(st, ast.Assert):
+            # the test is evaluated for what it does (a pool call, a drain), its outcome is not followed (a failing assert ends both modes alike)
+            if any(isinstance(n, (ast.Call, ast.NamedExpr)) for n in ast.walk(st.test)):
+                self.ev(st.test, fr)
+        elif isinstance(st, (ast.Pass, ast.Global, ast.Nonlocal)):
             pass
         elif isinstance(st, ast.Import):
             for a in st.names:
@@ -1830,10 +2134,36 @@ class Sim:
         else:
             raise Unsup(f"statement {type(st).__name__}")
 
+    def exec_match(self, st, fr):
+        """`match x: case "a": ... case "b" | "c": ... case _: ...` with literal patterns is the chain `if x == "a": ... elif x == "b" or x == "c": ...
+        else: ...` (the subject is evaluated once)"""
+        subj = self.snap(self.ev(st.subject, fr))
+
+        def test(p):
+            if isinstance(p, ast.MatchValue):
+                return ("cmp", "Eq", subj, self.snap(self.ev(p.value, fr)))
+            if isinstance(p, ast.MatchSingleton):
+                return ("cmp", "Is", subj, const(p.value))
+            if isinstance(p, ast.MatchOr):
+                return ("bool", "Or") + tuple(test(x) for x in p.patterns)
+            if isinstance(p, ast.MatchAs) and p.pattern is None:
+                return TRUE              # `_` or a capture: matches anything
+            raise Unsup(f"match pattern {type(p).__name__}")
+        for case in st.cases:
+            if not self.decide_term(test(case.pattern)):
+                continue
+            if isinstance(case.pattern, ast.MatchAs) and case.pattern.name is not None:
+                self.bind(case.pattern.name, subj, fr)
+            if case.guard is not None and not self.decide(case.guard, fr):
+                continue
+            self.exec_block(case.body, fr)
+            return
+
     def exec_aug(self, st, fr):
         op = type(st.op).__name__
         t = st.target
-        rhs = self.snap(self.ev(st.value, fr))
+        raw = self.ev(st.value, fr)
+        rhs = self.snap(raw)
         self.cur_node = st
         if isinstance(t, ast.Name):
             cur = self.lookup(t.id, fr)
@@ -1841,6 +2171,10 @@ class Sim:
                 self.store(cur, ("bin", op, self.content(cur), rhs), how="aug")
             elif is_tag(cur, "phi") and any(is_tag(x, "ref") for x in subterms(cur)):
                 raise Unsup("in-place operation on an array chosen by an undecided test")
+            elif op == "Add" and is_tag(cur, "tuple"):
+                if not is_tag(raw, "tuple"):
+                    raise Unsup("tuple extended by something that is not a literal tuple")
+                self.bind(t.id, cur + raw[1:], fr)          # tuples are immutable: `t += (x,)` rebinds the name
             else:
                 self.bind(t.id, ("bin", op, self.snap(cur), rhs), fr)
         elif isinstance(t, ast.Subscript):
